@@ -4,7 +4,7 @@
     Generated/ParserTables.v (token numbers, prefix table, QToProto / newMatchTree case lists from the source).
     The external engines (RegexpQuery's regexp/syntax, grafana regexp.Compile, language lookup,
     Regexp.setCase(auto)) are universally quantified. *)
-From ZV Require Import Lib.Base Model.Query Generated.ParserTables Model.Parser Proofs.ParserTotal Proofs.ParserKinds Proofs.ParserFuel.
+From ZV Require Import Lib.Base Model.Query Generated.ParserTables Model.Parser Proofs.ParserTotal Proofs.ParserKinds Proofs.ParserFuel Model.JsonApi Proofs.JsonApiTotal.
 From Coq Require Import String.
 Open Scope N_scope.
 
@@ -60,6 +60,26 @@ Theorem C07_parsed_searchable_kinds_partial :
 Proof. exact parsed_dispatchable. Qed.
 Print Assumptions C07_parsed_searchable_kinds_partial.
 
+(** PARTIAL for the JSON API: the control flow of jsonSearch / jsonList (Model/JsonApi.v: method check,
+    decode error, missing Q, nil Opts / RepoIDs guards, Parse, CalculateDefaultSearchLimits' pre-flight and
+    its division, search, status codes) never panics for any request - decodable or not - with the REAL
+    parser model plugged in, PROVIDED the searcher does not panic (assumption; for the shard searcher only
+    the kind dispatch is proved above).  encoding/json and net/http are trusted. *)
+Theorem C07_json_api_never_panics_partial :
+  forall (rq : str -> rqres) (rx_auto rcompile : str -> bool) (lang : str -> option str)
+         (search : Q -> bool -> outcome N) (listq : Q -> outcome unit),
+    (forall q b, nopanic (search q b)) -> (forall q, nopanic (listq q)) ->
+    forall (is_post : bool) (sbody : option search_args) (lbody : option list_args),
+      nopanic (json_search (parse rq rx_auto rcompile lang) search is_post sbody) /\
+      nopanic (json_list (parse rq rx_auto rcompile lang) listq is_post lbody).
+Proof.
+  intros rq rx_auto rcompile lang search listq Hs Hl is_post sbody lbody.
+  assert (Hp : forall s, nopanic (parse rq rx_auto rcompile lang s)).
+  { intros s. pose proof (parse_fine rq rx_auto rcompile lang s) as H. destruct (parse rq rx_auto rcompile lang s); simpl in *; auto. }
+  split; [apply json_search_nopanic | apply json_list_nopanic]; assumption.
+Qed.
+Print Assumptions C07_json_api_never_panics_partial.
+
 (** setType ranges over Go maps in random order; at most one entry of [prefixes] can apply, so the
     iteration order cannot change the token (and the model's first-hit-in-key-order is faithful) *)
 Theorem C07_prefix_map_order_irrelevant :
@@ -98,3 +118,13 @@ Proof. split; vm_compute; reflexivity. Qed.
 (** two prefixes of the table do apply to real inputs *)
 Example ex_prefix : In (bs "f:", tokFile) prefixes /\ prefixb (bs "f:") (bs "f:x") = true.
 Proof. split; vm_compute; tauto. Qed.
+
+(** the handlers' model does answer 200 / 400 / 405 / 500 (and a panicking searcher would surface) *)
+Example ex_json : json_search (fun _ => Ok (QConst true)) (fun _ _ => Ok 0) true
+                    (Some {| sa_q := [97]; sa_repoids := None; sa_has_opts := false; sa_maxdocs := 0; sa_shardmax := 0 |}) = Ok 200 /\
+  json_search (fun _ => Err 4) (fun _ _ => Ok 0) true
+                    (Some {| sa_q := [97]; sa_repoids := None; sa_has_opts := false; sa_maxdocs := 0; sa_shardmax := 0 |}) = Ok 400 /\
+  json_search (fun _ => Ok (QConst true)) (fun _ _ => Ok 0) false None = Ok 405 /\
+  json_list (fun _ => Ok (QConst true)) (fun _ => Err 1) true (Some {| la_q := [] |}) = Ok 500 /\
+  json_list (fun _ => Ok (QConst true)) (fun _ => Panic 11) true (Some {| la_q := [] |}) = Panic 11.
+Proof. repeat split; reflexivity. Qed.
